@@ -559,6 +559,37 @@ func VH_mdiff_Git() {
 	}
 }
 
+// VH_mdiff_LongLine: a line longer than any internal buffer of the readers
+// round-trips through the unified and normal formats.
+func VH_mdiff_LongLine() {
+	n := vCase("n")
+	b := make([]byte, n)
+	for i := range b {
+		b[i] = 'x'
+	}
+	b[n/2] = vByte("mid")
+	vAssume(b[n/2] != '\n')
+	long := string(b)
+	l := []string{"a", long, "c"}
+	r := []string{"a", "b", long + "y", "c"}
+	d := New(l, r)
+	text := vFormat(Unified, d.Chunks, nil)
+	got, ok := vApplyUnified(text, l)
+	vAssert(ok && vSameLines(got, r), "Unified output with a long line applies")
+	p, err := ReadUnified(bytes.NewReader(text))
+	vCover("long-line")
+	vAssert(err == nil, "ReadUnified accepts a long line")
+	if err == nil {
+		vAssert(string(vFormat(Unified, p.Chunks, p.FileInfo)) == string(text), "a long line round-trips through the unified format")
+	}
+	nt := vFormat(Normal, d.Chunks, nil)
+	q, err := Read(bytes.NewReader(nt))
+	vAssert(err == nil, "Read accepts a long line")
+	if err == nil {
+		vAssert(string(vFormat(Normal, q.Chunks, nil)) == string(nt), "a long line round-trips through the normal format")
+	}
+}
+
 func VT_mdiff_formats() {
 	l := []string{"a", "b", "c", "d", "e", "f"}
 	r := []string{"a", "x", "y", "c", "q", "d", "f", "g"}
